@@ -246,3 +246,39 @@ func verifH_C10_deepobject() {
 	_ = ValidateParameter(context.Background(), input, param)
 	verifReach("end")
 }
+
+//verif:harness id=C10 tier=quick,thorough witness=end depth=3000 bounds="parameters whose schema is recursive through a composition (Node = oneOf / anyOf / allOf [integer, Node]) and passes the real Validate x location query/path/header x raw text in {5, x, empty}: decoding and validating terminate without panic"
+func verifH_C10_recursive_param() {
+	node := &openapi3.Schema{}
+	self := &openapi3.SchemaRef{Ref: "#/components/schemas/Node", Value: node}
+	integer := &openapi3.SchemaRef{Value: &openapi3.Schema{Type: &openapi3.Types{"integer"}}}
+	comp := verifChoose("comp", 3)
+	switch comp {
+	case 0:
+		node.OneOf = openapi3.SchemaRefs{integer, self}
+	case 1:
+		node.AnyOf = openapi3.SchemaRefs{integer, self}
+	case 2:
+		node.AllOf = openapi3.SchemaRefs{integer, self}
+	}
+	in := []string{"query", "path", "header"}[verifChoose("in", 3)]
+	param := &openapi3.Parameter{Name: "p", In: in, Required: in == "path", Schema: self}
+	if param.Validate(context.Background()) != nil {
+		return
+	}
+	raw := []string{"5", "x", ""}[verifChoose("raw", 3)]
+	input := &RequestValidationInput{Request: &http.Request{Method: "GET", Header: http.Header{}, URL: &url.URL{Path: "/"}}, QueryParams: url.Values{}, PathParams: map[string]string{},
+		Options: &Options{SkipSettingDefaults: true}}
+	switch in {
+	case "query":
+		input.QueryParams["p"] = []string{raw}
+	case "path":
+		input.PathParams["p"] = raw
+	case "header":
+		input.Request.Header["P"] = []string{raw}
+	}
+	// known finding: decodeValue follows the composition back into the same schema without a guard
+	verifKnown("C10-recursive-composition-parameter", true)
+	_ = ValidateParameter(context.Background(), input, param)
+	verifReach("end")
+}
